@@ -25,7 +25,7 @@ fn main() {
                 if now != last {
                     last = now;
                     since = std::time::Instant::now();
-                } else if now.0 & 1 == 1 && since.elapsed().as_secs() >= 3 {
+                } else if now.0 & 1 == 1 && since.elapsed().as_millis() >= 1500 {
                     eprintln!("TIMEOUT {}", now.0 >> 1);
                     std::process::exit(3);
                 }
